@@ -63,3 +63,18 @@ Print Assumptions C11_phase_monitor_sound.
 Theorem C11_fault_monitor_sound : forall c : pcase, pc_teardown c = false -> m11f (set_obs c (model_run c)) = true.
 Proof. exact m11f_sound. Qed.
 Print Assumptions C11_fault_monitor_sound.
+
+(** The controller-level monitors of C11 (coq/corr/SetMonitors.v) accept every pass of the model.
+    m11r ("violations are retried": an active pass of an ObjectSet with a revision that lists an object twice, or
+    whose first in-process phase violates preflight, ends with a requeue or an error). *)
+From PKOCorr Require Import SetCorr SetMonitors SetMonSound SetMonSound2.
+Theorem C11_set_monitor_retry_sound : forall c : scase, m11r (set_obs_s c (SetCorr.model_run c)) = true.
+Proof. exact m11r_sound. Qed.
+Print Assumptions C11_set_monitor_retry_sound.
+
+(** m11 (all three clauses: the same object listed twice => no member request; a namespaced ObjectSet never has a
+    member request outside its namespace or on a cluster-scoped kind, in rollout and teardown alike; every member
+    request of an active pass names an object of a local phase all of whose objects pass preflight). *)
+Theorem C11_set_monitor_sound : forall c : scase, m11 (set_obs_s c (SetCorr.model_run c)) = true.
+Proof. exact m11_sound. Qed.
+Print Assumptions C11_set_monitor_sound.
